@@ -64,8 +64,8 @@ def run(a):
                      "correspondence = canonical output equal to the Lean model, property = oracle evaluated by each side on its own output; distinct = distinct op lines")
     c.assumptions = [
         "gc shim/phase modes run over an RPC wrapper that applies ScanLock StartKey/EndKey/Limit to the mock's answer and forwards batched "
-        "ResolveLock TxnInfos to the mock's own MVCCStore.BatchResolveLock (the mock's RPC handler ignores both); gc pure runs the unmodified mock",
-        "gc_preserves_outcomes is NOT a theorem here (deferred to the MVCC hub): it is validated by the store-level audit only",
+        "ResolveLock TxnInfos to the mock's own MVCCStore.BatchResolveLock (the mock's RPC handler ignores the ScanLock bounds; the batched TxnInfos form is honoured since /repo a713e36); gc pure runs the unmodified mock",
+        "gc_preserves_outcomes is proved for the store half (a GC command keeps reads >= safe point, records above it and the invariant, Proofs/MvccTemporal); the cross-key protocol half is validated by the store-level audit only",
         "async-commit locks are not generated (mocktikv has no async commit); pessimistic locks are reported by the mock without lock type",
         "which worker handles which sub-range is not modelled: with a failing handler and more than one worker only `error reported` and "
         "the shape of the handled sub-ranges are checked",
